@@ -516,6 +516,8 @@ func c12WideUniverse() *c12Universe {
 		{"+nt-n+ims"}, {"+qah", "a", "a", "a"}, {"+zZOrp-z"}, {"+o", ""},
 		// no leading sign: letters before the first sign are removals (the documented initial state of the parser)
 		{"o", "a"}, {"n"}, {"t+n"}, {"v+o", "a", "a"},
+		// an argument-taking letter that finds no argument left is skipped; the letters after it still apply
+		{"+ktn"}, {"+lm"}, {"+on"}, {"+l-t+s"}, {"+ovm-l", "a"}, {"+vi-n"},
 	} {
 		add(opChannelModes, "#x", "", x...)
 	}
